@@ -13,4 +13,15 @@ e1 = [s for s in tr["post"]["syms"] if s["n"] == "e1"][0]
 if e1["k"] != "blk":
     print("DEFECT: e1 is", e1["k"], "- expected at the end of b1 (offset 2)")
     sys.exit(1)
+# second trigger: function tables present, the edit at the end of b1 is a patch ending in a label
+tr = run([blk("code", [["op", 2, 1], ["op", 3, 2]], "b1", fn="b1", entry=True, esyms=["e1"]),
+          blk("code", [["op", 2, 3], ["op", 3, 4]], "b2", fn="b1"),
+          blk("code", [["op", 2, 5], ["op", 3, 6]], "b3", fn="b1")],
+         [{"op": "ins", "sec": 0, "blk": 0, "off": 5, "len": 0, "patch": {"kind": "fwd", "k": 1, "tgt": "b1"}},
+          {"op": "del", "sec": 0, "blk": 1, "off": 0, "len": 5, "proxy": True}])
+show(tr)
+bad = [s for s in tr["post"]["syms"] if s["n"] in ("e1", ".Ly_1") and s["k"] != "blk"]
+if bad:
+    print("DEFECT:", [(s["n"], s["k"]) for s in bad], "- expected at the end of b1 / of the patch")
+    sys.exit(1)
 print("ok")
